@@ -152,36 +152,9 @@ Proof.
   - split; [exact I'|]. rewrite S', Fs. reflexivity.
 Qed.
 
-(** deSerialize as one fold over the 64 (square, nibble) pairs followed by the flag word *)
-Definition deserPairs (d : list N) : list (Z * N) :=
-  wordNibbles 0 (nth 0 d 0) ++ wordNibbles 1 (nth 1 d 0) ++ wordNibbles 2 (nth 2 d 0) ++ wordNibbles 3 (nth 3 d 0).
-
-Definition deserP0 : position :=
-  mkPos (repeat EMPTY 64) (repeat 0 13) 0 0 true 0%Z 0%Z 0 (-1)%Z 0 (zk_empty zk) 0%Z (- kV)%Z (- kV)%Z 0%Z 0%Z.
-
-Definition deserFinish (st : position * N) (flags : N) : position :=
-  let p := fst st in let hash := snd st in
-  let p := set_fullMoveCounter p (Z.of_N (N.land flags 65535)) in
-  let flags := N.shiftr flags 16 in
-  let p := set_halfMoveClock p (Z.of_N (N.land flags 255)) in
-  let flags := N.shiftr flags 8 in
-  let ep := Z.of_N (N.land flags 255) in
-  let ep := if (ep =? 255)%Z then (-1)%Z else ep in
-  let p := set_epSquare p ep in
-  let flags := N.shiftr flags 8 in
-  let p := set_castleMask p (N.land flags 15) in
-  let flags := N.shiftr flags 4 in
-  let p := set_whiteMove p (negb (N.land flags 1 =? 0)) in
-  set_hashKey p (fullHash zk p hash).
-
 Lemma deSerialize_unfold d :
-  deSerialize zk d = deserFinish (fold_left (deserStep zk) (deserPairs d) (deserP0, zk_empty zk)) (nth 4 d 0).
-Proof.
-  unfold deSerialize, deserPairs, deserFinish. cbv zeta. cbn [fold_left].
-  rewrite !fold_left_app. fold deserP0.
-  destruct (fold_left _ _ _) as [p h]. reflexivity.
-Qed.
-
+  deSerialize zk d = deserFinish zk (fold_left (deserStep zk) (deserPairs d) (deserP0 zk, zk_empty zk)) (nth 4 d 0).
+Proof. reflexivity. Qed.
 
 Definition sqAll : list N :=
   [15;14;13;12;11;10;9;8;7;6;5;4;3;2;1;0; 31;30;29;28;27;26;25;24;23;22;21;20;19;18;17;16;
@@ -201,7 +174,7 @@ Proof.
   rewrite forallb_forall in H. apply N.ltb_lt. auto.
 Qed.
 
-Lemma deserP0_inv : InvD (deserP0, zk_empty zk).
+Lemma deserP0_inv : InvD (deserP0 zk, zk_empty zk).
 Proof.
   split; [|repeat split]. cbn [fst snd]. unfold hat, deserP0.
   constructor; proj_simpl.
@@ -224,7 +197,7 @@ Proof.
   - reflexivity.
 Qed.
 
-Lemma deserFinish_consistent p h flags : InvD (p, h) -> Consistent zk (deserFinish (p, h) flags).
+Lemma deserFinish_consistent p h flags : InvD (p, h) -> Consistent zk (deserFinish zk (p, h) flags).
 Proof.
   intros (C & Hw & Hc & He). cbn [fst snd] in *. destruct C.
   unfold hat in *. proj_simpl_in c_hash.
@@ -241,7 +214,7 @@ Theorem deSerialize_consistent d :
 Proof.
   intro F. rewrite deSerialize_unfold.
   destruct sqAll_facts as (SD & SF & _).
-  destruct (deser_fold (deserPairs d) (deserP0, zk_empty zk) deserP0_inv) as (I & _).
+  destruct (deser_fold (deserPairs d) (deserP0 zk, zk_empty zk) deserP0_inv) as (I & _).
   - rewrite deserPairs_squares. exact SD.
   - apply Forall_forall. intros o Ho. split.
     + rewrite Forall_forall in SF. apply SF. rewrite <- (deserPairs_squares d). apply (in_map sqOf). exact Ho.
@@ -258,6 +231,12 @@ Lemma fold_left_map {A B C} (f : A -> C -> A) (g : B -> C) l : forall a,
   fold_left f (map g l) a = fold_left (fun a x => f a (g x)) l a.
 Proof. induction l; simpl; auto. Qed.
 
+Lemma nth_map_seq (f : nat -> N) n k d : (k < n)%nat -> nth k (map f (seq 0 n)) d = f k.
+Proof.
+  intro H. rewrite (nth_indep _ d (f 0%nat)) by (rewrite map_length, seq_length; exact H).
+  rewrite map_nth, seq_nth by exact H. reflexivity.
+Qed.
+
 Lemma nib_serWord p i k :
   Forall (fun pc => pc < 13) (squares p) -> (k < 16)%nat ->
   N.land (N.shiftr (serWord p i) (4 * N.of_nat k)) 15 = getPiece p (i * 16 + (15 - N.of_nat k)).
@@ -267,8 +246,7 @@ Proof.
   fold (packL (map (fun k0 : nat => getPiece p (i * 16 + N.of_nat k0)) (seq 0 16)) 0).
   rewrite nib_pack.
   - rewrite map_length, seq_length.
-    rewrite (nth_indep _ 0 ((fun k0 : nat => getPiece p (i * 16 + N.of_nat k0)) 0%nat)) by (rewrite map_length, seq_length; lia).
-    rewrite map_nth. rewrite seq_nth by lia. f_equal. lia.
+    rewrite nth_map_seq by lia. f_equal. lia.
   - apply Forall_forall. intros x Hx. apply in_map_iff in Hx as (k0 & <- & _).
     pose proof (getPiece_lt p (i * 16 + N.of_nat k0) F). lia.
   - rewrite map_length, seq_length. exact Hk.
@@ -292,14 +270,18 @@ Lemma fold_upd_nth (g : N -> piece) S : forall T0 x,
   if existsb (N.eqb x) S then g x else nthP T0 x.
 Proof.
   induction S as [|a S IH]; intros T0 x Hl F; cbn [map fold_left existsb]; [reflexivity|].
-  inversion F; subst. rewrite IH by (auto; rewrite length_updN; auto).
+  inversion F as [|? ? Ha F']; subst. cbv beta in Ha. rewrite IH by (auto; rewrite length_updN; auto).
   unfold sqOf, toSq. cbn [fst snd]. rewrite N2Z.id.
   destruct (N.eqb_spec x a) as [->|Hne]; cbn [orb].
-  - destruct (existsb (N.eqb a) S); [reflexivity|]. apply nthP_updN_eq. lia.
+  - destruct (existsb (N.eqb a) S); [reflexivity|]. apply nthP_updN_eq. unfold piece in *. rewrite Hl. exact Ha.
   - destruct (existsb (N.eqb x) S); [reflexivity|]. apply nthP_updN_neq. auto.
 Qed.
 
-Lemma deserFinish_squares st flags : squares (deserFinish st flags) = squares (fst st).
+Lemma length_fold_upd (L : list (Z * N)) : forall T : list N,
+  length (fold_left (fun s o => updN (sqOf o) (snd o) s) L T) = length T.
+Proof. induction L; intro T; cbn [fold_left]; [reflexivity|]. rewrite IHL, length_updN. reflexivity. Qed.
+
+Lemma deserFinish_squares st flags : squares (deserFinish zk st flags) = squares (fst st).
 Proof. reflexivity. Qed.
 
 Lemma squares_roundtrip p :
@@ -309,7 +291,7 @@ Proof.
   assert (Hlen : length (squares p) = 64%nat) by (destruct C; auto).
   destruct sqAll_facts as (SD & SF & SC).
   rewrite deSerialize_unfold, deserFinish_squares.
-  destruct (deser_fold (deserPairs (serialize p)) (deserP0, zk_empty zk) deserP0_inv) as (_ & Sq).
+  destruct (deser_fold (deserPairs (serialize p)) (deserP0 zk, zk_empty zk) deserP0_inv) as (_ & Sq).
   - rewrite deserPairs_squares. exact SD.
   - rewrite deserPairs_serialize by auto. apply Forall_forall. intros o Ho.
     apply in_map_iff in Ho as (s0 & <- & Hs). unfold sqOf, toSq. cbn [fst snd]. rewrite N2Z.id. split.
@@ -318,11 +300,8 @@ Proof.
   - intros o Ho. cbn [fst]. unfold deserP0, nthP. cbn [squares].
     destruct (Nat.lt_ge_cases (N.to_nat (sqOf o)) 64); [apply nth_repeat | apply nth_overflow; rewrite repeat_length; auto].
   - rewrite Sq. cbn [fst]. rewrite deserPairs_serialize by auto.
-    apply list_ext_N; auto.
-    + clear Sq. generalize (squares deserP0) (eq_refl : length (squares deserP0) = 64%nat).
-      induction (map (fun s : N => (Z.of_N s, getPiece p s)) sqAll) as [|o l IH]; intros T HT; cbn [fold_left]; auto.
-      apply IH. rewrite length_updN. exact HT.
-    + intros s Hs. rewrite fold_upd_nth by (auto; reflexivity).
+    apply list_ext_N; [etransitivity; [apply length_fold_upd | reflexivity] | exact Hlen |].
+    intros s Hs. rewrite fold_upd_nth by (auto; reflexivity).
       rewrite forallb_forall in SC.
       assert (E : existsb (N.eqb s) sqAll = true).
       { specialize (SC (N.to_nat s)). rewrite N2Nat.id in SC. apply SC. apply in_seq. lia. }
@@ -336,7 +315,7 @@ Proof. intro H. rewrite Z.land_ones by lia. rewrite Z.mod_small by exact H. refl
 Lemma flags_roundtrip p :
   castleMask p < 16 -> epInb (epSquare p) = true ->
   (0 <= halfMoveClock p < 256)%Z -> (0 <= fullMoveCounter p < 65536)%Z ->
-  scalars (deserFinish (p, 0) (serFlags p)) = scalars p.
+  scalars (deserFinish zk (p, 0) (serFlags p)) = scalars p.
 Proof.
   intros Hcm Hep Hh Hf.
   unfold epInb in Hep. apply andb_prop in Hep as [He1 He2]. apply Z.leb_le in He1. apply Z.ltb_lt in He2.
@@ -345,8 +324,9 @@ Proof.
   assert (He8 : e8 < 2 ^ 8 /\ (if (Z.of_N e8 =? 255)%Z then (-1)%Z else Z.of_N e8) = epSquare p).
   { unfold e8. destruct (Z.eq_dec (epSquare p) (-1)) as [->|Hn].
     - split; reflexivity.
-    - change 255%Z with (Z.ones (Z.of_N 8)). rewrite zland_small by (simpl; lia).
-      split; [simpl; lia|]. rewrite Z2N.id by lia.
+    - assert (El : Z.land (epSquare p) 255 = epSquare p).
+      { change 255%Z with (Z.ones 8). rewrite Z.land_ones by lia. apply Z.mod_small. change (2 ^ 8)%Z with 256%Z. lia. }
+      rewrite El. split; [change (2 ^ 8) with 256; lia|]. rewrite Z2N.id by lia.
       destruct (Z.eqb_spec (epSquare p) 255); [lia | reflexivity]. }
   destruct He8 as (He8 & Eep).
   assert (Hh8 : Z.to_N (Z.land (halfMoveClock p) 255) = Z.to_N (halfMoveClock p))
@@ -372,7 +352,7 @@ Proof.
   unfold wmN. destruct (whiteMove p); reflexivity.
 Qed.
 
-Lemma deserFinish_scalars st st' flags : scalars (deserFinish st flags) = scalars (deserFinish st' flags).
+Lemma deserFinish_scalars st st' flags : scalars (deserFinish zk st flags) = scalars (deserFinish zk st' flags).
 Proof. reflexivity. Qed.
 
 Theorem serialize_roundtrip p :
